@@ -129,6 +129,22 @@ func parseExclusiveRange(e *Ecosystem, rangeStr string) ([]*constraint, error) {
 	startStr := strings.TrimSpace(parts[0])
 	endStr := strings.TrimSpace(parts[1])
 
+	// Unbounded forms: (1.0,) is > 1.0 and (,2.0) is < 2.0
+	if startStr == "" && endStr != "" {
+		endVersion, err := e.NewVersion(endStr)
+		if err != nil {
+			return nil, fmt.Errorf("invalid end version in unbounded range: %w", err)
+		}
+		return []*constraint{{operator: "<", version: endVersion}}, nil
+	}
+	if startStr != "" && endStr == "" {
+		startVersion, err := e.NewVersion(startStr)
+		if err != nil {
+			return nil, fmt.Errorf("invalid start version in unbounded range: %w", err)
+		}
+		return []*constraint{{operator: ">", version: startVersion}}, nil
+	}
+
 	startVersion, err := e.NewVersion(startStr)
 	if err != nil {
 		return nil, fmt.Errorf("invalid start version in exclusive range: %w", err)
